@@ -41,6 +41,7 @@ func checkC13(c *Ctx) {
 	c.checkReplyWrappersEchoId()
 	c.checkReplyGoesToItsRequest()
 	c.checkReportedErrorNotOverwritten()
+	c.checkDraftySpanBounds()
 	// a request whose in-flight slot is never released blocks every later request of the session
 	c.checkInflightPairing()
 	// a call party that is not a subscriber of the p2p topic makes Topic.original panic (D16) on the next event
